@@ -95,6 +95,76 @@ def trace_sweep(dims, cap, seed=0, reuse=False):
     return steps, ones_f, L, ops
 
 
+def trace_bug(dims, seed=0, reuse=False, kind="analog", dt=0.1):
+    """One call of bug.bug with recording kernels.  Returns the list of events
+    ("U", site of the tensor, index of the operator tensor, left block id, right block id, dt / params.dt) ... ("T", threshold, cap)."""
+    import mqt.yaqs.core.methods.bug as B
+    from mqt.yaqs.core.data_structures.networks import MPO, MPS
+    from mqt.yaqs.core.data_structures.simulation_parameters import AnalogSimParams, Observable, StrongSimParams
+
+    L = len(dims) + 1
+    rng = np.random.default_rng(seed)
+    tens = []
+    for i in range(L):
+        lft = 1 if i == 0 else dims[i - 1]
+        r = 1 if i == L - 1 else dims[i]
+        tens.append(rng.normal(size=(2, lft, r)) + 1j * rng.normal(size=(2, lft, r)))
+    st = MPS(L, tensors=tens, physical_dimensions=[2] * L)
+    if kind == "analog":
+        p = AnalogSimParams([Observable("z", 0)], elapsed_time=dt, dt=dt, max_bond_dim=7, threshold=1e-9, show_progress=False)
+    else:
+        p = StrongSimParams([Observable("z", 0)], num_traj=1, max_bond_dim=7, threshold=1e-9, show_progress=False)
+    H = MPO.ising(L, 1.0, 0.5)
+    if reuse:
+        H = MPO()
+        H.custom([t.copy() for t in MPO.ising(L, 0.3, 1.1).tensors], transpose=False)
+        warm = MPS(L, tensors=[t.copy() for t in st.tensors], physical_dimensions=[2] * L)
+        B.bug(warm, H, p)
+        H.custom([t.copy() for t in MPO.ising(L, 1.0, 0.5).tensors], transpose=False)
+    ev = []
+    saved = (B.update_site, B.update_left_environment, B.update_right_environment)
+    lefts, rights = {}, {}   # id(array) -> index; arrays kept alive in keep
+    keep = []
+    seen_left = {"n": 0}
+    canon = {}
+
+    def lenv(a, b, w, prev, *xa, **xk):
+        out = saved[1](a, b, w, prev, *xa, **xk)
+        k = [i for i, t in enumerate(H.tensors) if t is w]
+        keep.append(out)
+        lefts[id(out)] = (k[0] + 1) if len(k) == 1 else None
+        return out
+
+    def renv(a, b, w, prev, *xa, **xk):
+        out = saved[2](a, b, w, prev, *xa, **xk)
+        k = [i for i, t in enumerate(H.tensors) if t is w]
+        keep.append(out)
+        rights[id(out)] = k[0] if len(k) == 1 else None
+        return out
+
+    def upd(left, right, op, tensor, step, *xa, **xk):
+        k = [i for i, t in enumerate(H.tensors) if t is op]
+        li = lefts.get(id(left), 0 if left.shape[0] == left.shape[2] and np.array_equal(left[:, 0, :], np.eye(left.shape[0])) else None)
+        ri = rights.get(id(right), L if right.shape[0] == right.shape[2] and np.array_equal(right[:, 0, :], np.eye(right.shape[0])) else None)
+        ev.append(("U", k[0] if len(k) == 1 else None, li, ri, float(step)))
+        return saved[0](left, right, op, tensor, step, *xa, **xk)
+
+    trunc = type(st).truncate
+
+    def truncate(self, threshold=None, max_bond_dim=None, *xa, **xk):
+        ev.append(("T", threshold, max_bond_dim))
+        return trunc(self, threshold, max_bond_dim, *xa, **xk)
+
+    B.update_site, B.update_left_environment, B.update_right_environment = upd, lenv, renv
+    type(st).truncate = truncate
+    try:
+        B.bug(st, H, p)
+    finally:
+        B.update_site, B.update_left_environment, B.update_right_environment = saved
+        type(st).truncate = trunc
+    return ev, p, L
+
+
 def split_halves(steps, L):
     """The forward half ends after the step that touches site L-1 for the first time in forward direction; the real loop structure
     makes the split unambiguous: the first half contains exactly one positive update covering site L-1."""
@@ -131,6 +201,7 @@ def to_model_steps(v, L):
 
 def correspond(ctx):
     ctx.rules.append(RULE)
+    correspond_bug(ctx)
     cases, exprs, impl = [], [], []
     for k in range(ctx.scale(120, 2500)):
         L = int(ctx.rng.integers(2, 9))
@@ -169,6 +240,39 @@ def correspond(ctx):
         if site_t != 2 * c["L"] or bond_t != -2 * (c["L"] - 1):
             ctx.violation("time-budget", f"one TDVP step spends {site_t} half-steps on sites and {bond_t} on bonds for L={c['L']} "
                           f"(expected {2 * c['L']} and {-2 * (c['L'] - 1)}); dims {c['dims']}, cap {c['cap']}", {"oracle": "budget", **c})
+
+
+def correspond_bug(ctx):
+    """bug.bug with recording kernels vs Model/BugSweep.bug_steps: which site, operator tensor and environment blocks every local
+    update works with, the step length (the full dt; 1 for circuit parameters), and the closing truncation with the run's limits."""
+    cases, exprs = [], []
+    for k in range(ctx.scale(40, 600)):
+        L = int(ctx.rng.integers(2, 8))
+        dims = [int(min(ctx.rng.choice([1, 2, 3, 4]), 2 ** min(i + 1, L - 1 - i))) for i in range(L - 1)]
+        kind = "analog" if k % 3 else "strong"
+        dt = float(ctx.rng.choice([0.1, 0.05, 0.3]))
+        ev, par, _ = trace_bug(dims, seed=k, reuse=(k % 4 == 3), kind=kind, dt=dt)
+        cases.append(dict(L=L, dims=dims, kind=kind, dt=dt, reuse=(k % 4 == 3), events=ev, want_dt=(dt if kind == "analog" else 1.0),
+                          limits=(par.threshold, par.max_bond_dim)))
+        exprs.append(f"bug_steps {L}")
+    vals = common.coq_eval_sharded("From Coq Require Import List. Import ListNotations.\nFrom Yaqs Require Import Model.BugSweep.", exprs, tag="c05b")
+    for c, v in zip(cases, vals):
+        ev = c.pop("events")
+        model = [("U", a[2], a[3], a[4]) if a[0] == "BUpd" else ("T",) for a in v]
+        impl = [("U", e[1], e[2], e[3]) if e[0] == "U" else ("T",) for e in ev]
+        ctx.case(nontrivial_key=("bug", tuple(c["dims"]), c["kind"], c["reuse"]), validated=True,
+                 sample={**c, "events": ev} if c["L"] == 4 and c["reuse"] else None)
+        ctx.count("bug_steps_" + c["kind"])
+        if impl != model:
+            ctx.mismatch("bug.bug step list vs BugSweep.bug_steps (operator tensor, left block, right block per update; truncation last)",
+                         c, ev, model, key="bug-steps")
+            continue
+        bad_dt = [e for e in ev if e[0] == "U" and e[4] != c["want_dt"]]
+        if bad_dt:
+            ctx.mismatch("bug.bug step length vs BugSweep (every update covers the full dt)", c, bad_dt[:3], c["want_dt"], key="bug-dt")
+        tr = [e for e in ev if e[0] == "T"]
+        if tr and (tr[0][1], tr[0][2]) != tuple(c["limits"]):
+            ctx.mismatch("bug.bug closing truncation vs the run's (threshold, max_bond_dim)", c, tr[0], list(c["limits"]), key="bug-trunc")
 
 
 # ---- real runs ------------------------------------------------------------------------------------------------------
